@@ -355,6 +355,16 @@ pub const SHAPES: &[(&str, &[&str])] = &[
     ("rband_r", &["band", "r"]),
     ("rbor", &["bor"]),
     ("rbnot_r", &["bnot", "r"]),
+    // every remaining tuple arity (all members read)
+    ("ar6", &["r", "r", "r", "r", "r", "r"]),
+    ("ar7", &["r", "r", "r", "r", "r", "r", "r"]),
+    ("ar9", &["r", "r", "r", "r", "r", "r", "r", "r", "r"]),
+    ("ar10", &["r", "r", "r", "r", "r", "r", "r", "r", "r", "r"]),
+    ("ar11", &["r", "r", "r", "r", "r", "r", "r", "r", "r", "r", "r"]),
+    ("ar12", &["r", "r", "r", "r", "r", "r", "r", "r", "r", "r", "r", "r"]),
+    ("ar13", &["r", "r", "r", "r", "r", "r", "r", "r", "r", "r", "r", "r", "r"]),
+    ("ar14", &["r", "r", "r", "r", "r", "r", "r", "r", "r", "r", "r", "r", "r", "r"]),
+    ("ar15", &["r", "r", "r", "r", "r", "r", "r", "r", "r", "r", "r", "r", "r", "r", "r"]),
     // joins over resources through their fetch wrappers (Fetch / Read / FetchMut / Write)
     ("res_fb_r", &["b", "r"]),
     ("res_rb_r", &["b", "r"]),
@@ -986,6 +996,130 @@ fn exec_shape(s: &mut Setup, shape: &str, run: &Run) -> (Vec<Value>, Vec<Value>)
             let i = world.read_storage::<H1>();
             drive!(run, world, par = yes, (&mut a, &b, &c, &d, &f, &g, (&h).maybe(), &i),
                    |(x1, x2, x3, x4, x5, x6, x7, x8)| [w(x1), x2.js(), x3.js(), x4.js(), x5.js(), x6.js(), ro(x7), x8.js()])
+        }
+        "ar6" => {
+            let s0 = world.read_storage::<V0>();
+            let s1 = world.read_storage::<D0>();
+            let s2 = world.read_storage::<H0>();
+            let s3 = world.read_storage::<B0>();
+            let s4 = world.read_storage::<F0>();
+            let s5 = world.read_storage::<V1>();
+            drive!(run, world, par = yes, (&s0, &s1, &s2, &s3, &s4, &s5), |(x0, x1, x2, x3, x4, x5)| [x0.js(), x1.js(), x2.js(), x3.js(), x4.js(), x5.js()])
+        }
+        "ar7" => {
+            let s0 = world.read_storage::<V0>();
+            let s1 = world.read_storage::<D0>();
+            let s2 = world.read_storage::<H0>();
+            let s3 = world.read_storage::<B0>();
+            let s4 = world.read_storage::<F0>();
+            let s5 = world.read_storage::<V1>();
+            let s6 = world.read_storage::<D1>();
+            drive!(run, world, par = yes, (&s0, &s1, &s2, &s3, &s4, &s5, &s6), |(x0, x1, x2, x3, x4, x5, x6)| [x0.js(), x1.js(), x2.js(), x3.js(), x4.js(), x5.js(), x6.js()])
+        }
+        "ar9" => {
+            let s0 = world.read_storage::<V0>();
+            let s1 = world.read_storage::<D0>();
+            let s2 = world.read_storage::<H0>();
+            let s3 = world.read_storage::<B0>();
+            let s4 = world.read_storage::<F0>();
+            let s5 = world.read_storage::<V1>();
+            let s6 = world.read_storage::<D1>();
+            let s7 = world.read_storage::<H1>();
+            let s8 = world.read_storage::<B1>();
+            drive!(run, world, par = yes, (&s0, &s1, &s2, &s3, &s4, &s5, &s6, &s7, &s8), |(x0, x1, x2, x3, x4, x5, x6, x7, x8)| [x0.js(), x1.js(), x2.js(), x3.js(), x4.js(), x5.js(), x6.js(), x7.js(), x8.js()])
+        }
+        "ar10" => {
+            let s0 = world.read_storage::<V0>();
+            let s1 = world.read_storage::<D0>();
+            let s2 = world.read_storage::<H0>();
+            let s3 = world.read_storage::<B0>();
+            let s4 = world.read_storage::<F0>();
+            let s5 = world.read_storage::<V1>();
+            let s6 = world.read_storage::<D1>();
+            let s7 = world.read_storage::<H1>();
+            let s8 = world.read_storage::<B1>();
+            let s9 = world.read_storage::<F1>();
+            drive!(run, world, par = yes, (&s0, &s1, &s2, &s3, &s4, &s5, &s6, &s7, &s8, &s9), |(x0, x1, x2, x3, x4, x5, x6, x7, x8, x9)| [x0.js(), x1.js(), x2.js(), x3.js(), x4.js(), x5.js(), x6.js(), x7.js(), x8.js(), x9.js()])
+        }
+        "ar11" => {
+            let s0 = world.read_storage::<V0>();
+            let s1 = world.read_storage::<D0>();
+            let s2 = world.read_storage::<H0>();
+            let s3 = world.read_storage::<B0>();
+            let s4 = world.read_storage::<F0>();
+            let s5 = world.read_storage::<V1>();
+            let s6 = world.read_storage::<D1>();
+            let s7 = world.read_storage::<H1>();
+            let s8 = world.read_storage::<B1>();
+            let s9 = world.read_storage::<F1>();
+            let s10 = world.read_storage::<V2>();
+            drive!(run, world, par = yes, (&s0, &s1, &s2, &s3, &s4, &s5, &s6, &s7, &s8, &s9, &s10), |(x0, x1, x2, x3, x4, x5, x6, x7, x8, x9, x10)| [x0.js(), x1.js(), x2.js(), x3.js(), x4.js(), x5.js(), x6.js(), x7.js(), x8.js(), x9.js(), x10.js()])
+        }
+        "ar12" => {
+            let s0 = world.read_storage::<V0>();
+            let s1 = world.read_storage::<D0>();
+            let s2 = world.read_storage::<H0>();
+            let s3 = world.read_storage::<B0>();
+            let s4 = world.read_storage::<F0>();
+            let s5 = world.read_storage::<V1>();
+            let s6 = world.read_storage::<D1>();
+            let s7 = world.read_storage::<H1>();
+            let s8 = world.read_storage::<B1>();
+            let s9 = world.read_storage::<F1>();
+            let s10 = world.read_storage::<V2>();
+            let s11 = world.read_storage::<D2>();
+            drive!(run, world, par = yes, (&s0, &s1, &s2, &s3, &s4, &s5, &s6, &s7, &s8, &s9, &s10, &s11), |(x0, x1, x2, x3, x4, x5, x6, x7, x8, x9, x10, x11)| [x0.js(), x1.js(), x2.js(), x3.js(), x4.js(), x5.js(), x6.js(), x7.js(), x8.js(), x9.js(), x10.js(), x11.js()])
+        }
+        "ar13" => {
+            let s0 = world.read_storage::<V0>();
+            let s1 = world.read_storage::<D0>();
+            let s2 = world.read_storage::<H0>();
+            let s3 = world.read_storage::<B0>();
+            let s4 = world.read_storage::<F0>();
+            let s5 = world.read_storage::<V1>();
+            let s6 = world.read_storage::<D1>();
+            let s7 = world.read_storage::<H1>();
+            let s8 = world.read_storage::<B1>();
+            let s9 = world.read_storage::<F1>();
+            let s10 = world.read_storage::<V2>();
+            let s11 = world.read_storage::<D2>();
+            let s12 = world.read_storage::<H2>();
+            drive!(run, world, par = yes, (&s0, &s1, &s2, &s3, &s4, &s5, &s6, &s7, &s8, &s9, &s10, &s11, &s12), |(x0, x1, x2, x3, x4, x5, x6, x7, x8, x9, x10, x11, x12)| [x0.js(), x1.js(), x2.js(), x3.js(), x4.js(), x5.js(), x6.js(), x7.js(), x8.js(), x9.js(), x10.js(), x11.js(), x12.js()])
+        }
+        "ar14" => {
+            let s0 = world.read_storage::<V0>();
+            let s1 = world.read_storage::<D0>();
+            let s2 = world.read_storage::<H0>();
+            let s3 = world.read_storage::<B0>();
+            let s4 = world.read_storage::<F0>();
+            let s5 = world.read_storage::<V1>();
+            let s6 = world.read_storage::<D1>();
+            let s7 = world.read_storage::<H1>();
+            let s8 = world.read_storage::<B1>();
+            let s9 = world.read_storage::<F1>();
+            let s10 = world.read_storage::<V2>();
+            let s11 = world.read_storage::<D2>();
+            let s12 = world.read_storage::<H2>();
+            let s13 = world.read_storage::<B2>();
+            drive!(run, world, par = yes, (&s0, &s1, &s2, &s3, &s4, &s5, &s6, &s7, &s8, &s9, &s10, &s11, &s12, &s13), |(x0, x1, x2, x3, x4, x5, x6, x7, x8, x9, x10, x11, x12, x13)| [x0.js(), x1.js(), x2.js(), x3.js(), x4.js(), x5.js(), x6.js(), x7.js(), x8.js(), x9.js(), x10.js(), x11.js(), x12.js(), x13.js()])
+        }
+        "ar15" => {
+            let s0 = world.read_storage::<V0>();
+            let s1 = world.read_storage::<D0>();
+            let s2 = world.read_storage::<H0>();
+            let s3 = world.read_storage::<B0>();
+            let s4 = world.read_storage::<F0>();
+            let s5 = world.read_storage::<V1>();
+            let s6 = world.read_storage::<D1>();
+            let s7 = world.read_storage::<H1>();
+            let s8 = world.read_storage::<B1>();
+            let s9 = world.read_storage::<F1>();
+            let s10 = world.read_storage::<V2>();
+            let s11 = world.read_storage::<D2>();
+            let s12 = world.read_storage::<H2>();
+            let s13 = world.read_storage::<B2>();
+            let s14 = world.read_storage::<F2>();
+            drive!(run, world, par = yes, (&s0, &s1, &s2, &s3, &s4, &s5, &s6, &s7, &s8, &s9, &s10, &s11, &s12, &s13, &s14), |(x0, x1, x2, x3, x4, x5, x6, x7, x8, x9, x10, x11, x12, x13, x14)| [x0.js(), x1.js(), x2.js(), x3.js(), x4.js(), x5.js(), x6.js(), x7.js(), x8.js(), x9.js(), x10.js(), x11.js(), x12.js(), x13.js(), x14.js()])
         }
         "a16" | "a16e" => {
             // 16 members is the largest tuple for which the mask combination (BitAnd) exists
